@@ -863,7 +863,10 @@ func GenTargetedInput(r *RNG, rc Recipe, fresh string, n int) []byte {
 // GenGiantToken produces an input dominated by ONE token of 70 KB - 1.1 MB (text run, attribute
 // value, comment, data URI or raw text): size-gated limits and fast paths only show there.
 func GenGiantToken(r *RNG, v Vocab) []byte {
-	n := []int{70000, 300000, 1100000}[r.Intn(3)] + r.Intn(5000)
+	return GenGiantTokenSized(r, v, []int{70000, 300000, 1100000}[r.Intn(3)]+r.Intn(5000))
+}
+
+func GenGiantTokenSized(r *RNG, v Vocab, n int) []byte {
 	var sb strings.Builder
 	sb.WriteString(string(GenInput(r, v, 3)))
 	switch r.Intn(5) {
